@@ -63,6 +63,40 @@ def switch_subject(body, d):
     return ('unknown', None)
 
 
+def arg_elements(b, op):
+    """(all_origins_are_elements, constant indices) : is the expression operand of an eval call, on every definition that
+    reaches it, a reference to an element of the body's own argument slice (`&args[K]`, `&args[i]` with i a constant chosen
+    by a branch, `match c { true => &args[1], false => &args[2] }`)?"""
+    pl0 = op_place(op)
+    if pl0 is None or pl0['p']:
+        return False, set()
+    aliases, origins = mirq.move_origins(b, pl0['l'])
+    idxs = set()
+    ok = bool(origins)
+    for obb, oidx, kind, payload in origins:
+        good = False
+        if kind == 'rv' and payload['rv']['k'] == 'ref':
+            pl = payload['rv']['place']
+            if any(isinstance(e, dict) and ('idx' in e or 'cidx' in e) for e in pl['p']):
+                bk, bv = mirq.chase(b, pl['l'])
+                if bk == 'arg' and 'xexpr::XExpr' in b.local_ty(bv):
+                    good = True
+                    for e in pl['p']:
+                        if isinstance(e, dict) and 'idx' in e:
+                            for k2, dbb, didx, x in b.defs().get(e['idx'], []):
+                                if k2 == 'stmt' and x['rv']['k'] == 'use' and 'const' in x['rv']['op']:
+                                    idxs.add(int(x['rv']['op']['const']['int']))
+                        if isinstance(e, dict) and 'cidx' in e:
+                            idxs.add(e['cidx'])
+            elif pl['p'] == ['*']:
+                # a re-borrow of another reference local
+                sub_ok, sub_idx = arg_elements(b, {'copy': {'l': pl['l'], 'p': []}})
+                good = sub_ok
+                idxs |= sub_idx
+        ok = ok and good
+    return ok, idxs
+
+
 def forward_flow(body, start_local, allow_match=False):
     """follow the result of a flagged evaluation; return list of (site_bb, what) misuse descriptions and whether it reaches _0"""
     S = {start_local}
@@ -161,6 +195,46 @@ def run(ctx):
                 k, v = mirq.chase(b, sub[1]['l'])
                 if k == 'call' and strip_generics(v[1].get('callee') or '') == 'runtime_scope::RuntimeScope::get_cell_value':
                     have['local_recourse'] = True
+        # a condition may be the result of a private predicate (`if flag && self.is_local_recourse(callee)`): what does a
+        # `true` result of that predicate imply?  the conditions that dominate every `_0 = true` of its body
+        for d, val in conds:
+            sub = switch_subject(b, d)
+            if sub[0] != 'bool' or val != 'otherwise' or not isinstance(sub[1], tuple) or sub[1][0] != 'call':
+                continue
+            ht = sub[1][1][1] if len(sub[1]) > 1 and isinstance(sub[1][1], tuple) and len(sub[1][1]) > 1 else None
+            hname = strip_generics((ht.get('callee') if isinstance(ht, dict) else None) or '')
+            hb = mir.find(hname)
+            if len(hb) != 1 or hb[0].kind != 'fn':
+                continue
+            H = hb[0]
+            trues = []
+            for i2, j2, s2 in H.stmts():
+                if s2['k'] == 'assign' and s2['place']['l'] == 0 and not s2['place']['p'] and s2['rv']['k'] == 'use' and s2['rv']['op'].get('const', {}).get('bool') is True:
+                    trues.append(i2)
+            # `_0 = move _tmp` with _tmp assigned true in some arms
+            if not trues:
+                for i2, j2, s2 in H.stmts():
+                    if s2['k'] == 'assign' and s2['rv']['k'] == 'use' and s2['rv']['op'].get('const', {}).get('bool') is True and not s2['place']['p']:
+                        trues.append(i2)
+            if not trues:
+                continue
+            common = None
+            for tb in trues:
+                cs = set()
+                for d2, v2 in dominating_conditions(H, tb):
+                    sb2 = switch_subject(H, d2)
+                    if sb2[0] == 'discr':
+                        src2 = 'other'
+                        k2, vv2 = mirq.chase(H, sb2[1]['l'])
+                        if k2 == 'call':
+                            src2 = strip_generics(vv2[1].get('callee') or '')
+                        cs.add((sb2[2].split('<')[0], v2, src2))
+                common = cs if common is None else (common & cs)
+            for tyname, v2, src2 in (common or ()):
+                if tyname.startswith('xexpr::XExpr') and v2 == str(vi_value):
+                    have['callee_value'] = True
+                if tyname.startswith('runtime_scope::EvaluationCell') and v2 == str(vi_lr) and src2 == 'runtime_scope::RuntimeScope::get_cell_value':
+                    have['local_recourse'] = True
         ok = all(have.values())
         r1.inst({'site': mirq.site(b, bb, j), 'dominating_conditions': have}, ok=ok)
         if not ok:
@@ -254,14 +328,7 @@ def run(ctx):
                 ok4 = False
                 why4.append('the scope evaluated in is not the body\'s own scope parameter (%s)' % rk)
             if nm == EVAL and b.kind == 'closure':
-                ek, ev_ = mirq.chase_op(b, t['args'][1])
-                expr_ok = False
-                if ek == 'rv':
-                    rvx = ev_[2]['rv']
-                    pl = rvx.get('place') if rvx['k'] == 'ref' else None
-                    if pl is not None and any(isinstance(e, dict) and ('idx' in e or 'cidx' in e) for e in pl['p']):
-                        bk, bv = mirq.chase(b, pl['l'])
-                        expr_ok = (bk == 'arg') and ('xexpr::XExpr' in b.local_ty(bv))
+                expr_ok, _ix = arg_elements(b, t['args'][1])
                 if not expr_ok:
                     ok4 = False
                     why4.append('the expression is not an element of the body\'s own argument slice')
@@ -363,16 +430,7 @@ def run(ctx):
             continue
         top = strip_generics(mir.enclosing_fn(b) or '')
         # possible constant indices of the evaluated argument
-        idxs = set()
-        ek, ev_ = mirq.chase_op(b, t['args'][1])
-        if ek == 'rv' and ev_[2]['rv']['k'] == 'ref':
-            for e in ev_[2]['rv']['place']['p']:
-                if isinstance(e, dict) and 'idx' in e:
-                    for kind, dbb, didx, x in b.defs().get(e['idx'], []):
-                        if kind == 'stmt' and x['rv']['k'] == 'use' and 'const' in x['rv']['op']:
-                            idxs.add(int(x['rv']['op']['const']['int']))
-                if isinstance(e, dict) and 'cidx' in e:
-                    idxs.add(e['cidx'])
+        _ok_el, idxs = arg_elements(b, t['args'][1])
         flagged_by_top.setdefault(top, set()).update(idxs)
     for sc in book.short_circuits(ctx.repo):
         if not sc.get('params'):
